@@ -7,7 +7,7 @@ NaN through: each refusal is false.  Instances: every `double` local of vnacal_l
 address by a static helper that reaches sscanf/strtod, (b) is the left or right operand of at least one relational
 refusal (an `if` whose branch leaves the function) and (c) is then stored into an object (a member, or an element of
 a member vector).  For each, a test that is false for NaN must dominate the store: a call of isnan / isfinite /
-isinf / fpclassify on it (also as the macros' builtin forms), the self comparison `v != v`, or the refusals written in
+isnormal / fpclassify on it (not isinf, which is false for NaN) (also as the macros' builtin forms), the self comparison `v != v`, or the refusals written in
 negated-accept form `!(v >= lo)`.
 """
 from ..core import Finding, RuleResult
@@ -17,8 +17,9 @@ from ..flow import Engine, Tracker, TooManyStates
 PROPS = ("C09",)
 FILES = ("vnacal_load.c",)
 SCANNERS = {"sscanf", "strtod", "strtof", "strtold", "atof", "fscanf"}
-NANTESTS = ("isnan", "isfinite", "isinf", "fpclassify", "__builtin_isnan", "__builtin_isfinite", "__builtin_isinf",
-            "__builtin_isinf_sign", "__builtin_fpclassify", "__isnan", "__finite", "__isinf", "isnormal", "__builtin_isnormal")
+# tests whose outcome separates NaN from every ordinary value; isinf() does not (it is false for NaN and for 1.0 alike)
+NANTESTS = ("isnan", "isfinite", "fpclassify", "__builtin_isnan", "__builtin_isfinite", "__builtin_fpclassify", "__isnan",
+            "__finite", "isnormal", "__builtin_isnormal")
 REL = ("<", "<=", ">", ">=")
 
 
